@@ -96,6 +96,18 @@ def loopN {σ : Type} : Nat → (σ → (σ → Act) → Act) → σ → Act
   | 0, _, _ => .diverge
   | n + 1, body, s => body s (loopN n body)
 
+/-- run `a`, then continue with its result (`ReceiveStream::poll_next` polls the future it wraps) -/
+def bind : Act → (Res → Act) → Act
+  | .ret r, f => f r
+  | .diverge, _ => .diverge
+  | .lock k, f => .lock fun c => (k c).bind f
+  | .tryLock k, f => .tryLock fun c => (k c).bind f
+  | .unlock c k, f => .unlock c (k.bind f)
+  | .eff e k, f => .eff e (k.bind f)
+  | .askB q k, f => .askB q fun b => (k b).bind f
+  | .askM q k, f => .askM q fun m => (k m).bind f
+  | .askP k, f => .askP fun r => (k r).bind f
+
 @[simp] theorem forEach_nil {α : Type} (body : α → Act → Act) (rest : Act) : forEach [] body rest = rest := rfl
 @[simp] theorem forEach_cons {α : Type} (a : α) (l : List α) (body : α → Act → Act) (rest : Act) :
     forEach (a :: l) body rest = body a (forEach l body rest) := rfl
